@@ -153,6 +153,8 @@ class Library:
         self.use_coll = rng.random() < 0.5
         self.funcs["sqrtf"] = FuncSpec("sqrtf", [ParamSpec("x", "float"), ParamSpec("scale", "float", rng.choice([1.0, 2.5]))], "float", maybe_cb(r, "sqrtf", 0.5))
         self.funcs["delta"] = FuncSpec("delta", rand_params(r, 3, ["a", "b", "c", "mode"]), "float")
+        # a registered function without a return annotation: its calls are normalised all the same, the type is unknown
+        self.funcs["rawf"] = FuncSpec("rawf", [ParamSpec("x", "float"), ParamSpec("n", "int", 3)], None, maybe_cb(r, "rawf", 0.4))
 
     def class_cb_of(self, ty_text: str, fallback: ClassSpec) -> Optional[CbDesc]:
         "python's getattr on the object's class: its own class-level callback, else the nearest inherited one"
@@ -227,7 +229,7 @@ class Library:
                 out.append(f"@func_adl_callable(_cb_{f.proc.tag.replace('.', '_')})")
             else:
                 out.append("@func_adl_callable()")
-            out.append(f"def {f.name}({self._sig(f.params, with_self=False)}) -> {f.ret}: ...")
+            out.append(f"def {f.name}({self._sig(f.params, with_self=False)})" + (f" -> {f.ret}" if f.ret else "") + ": ...")
             out.append("")
         return "\n".join(out)
 
@@ -437,6 +439,42 @@ class TypedGen:
         norm_args += [f"{kw[0]}={kw[1].norm}"] if kw else []
         return TExpr(f"{j.src}.{pname}[{lit}]({', '.join(src_args)})", f"{j.norm}.{name}({', '.join(norm_args)})", "float", log, md, refusal)
 
+    def odd_call(self, scope, d, want) -> Optional[TExpr]:
+        """rarely used corners of the call rules: a registered function without its required argument (ValueError), a
+        registered function without return annotation (normalised, type unknown), a property called like a method
+        (ValueError: not a function or method)"""
+        rng = self.rng
+        k = rng.randrange(3)
+        if k == 0:
+            shape = rng.choice(["sqrtf()", "sqrtf(scale=2.0)", "rawf(n=1)"])
+            return TExpr(shape, shape, "float", [], [], "Error processing function call: a required argument is missing")
+        if k == 1:
+            a = self.scalar(scope, d - 1, "float")
+            f = self.lib.funcs["rawf"]
+            shape = rng.randrange(3)
+            src = [f"rawf({a.src})", f"rawf(n=8, x={a.src})", f"rawf({a.src}, 9)"][shape]
+            args = [a.norm, ["3", "8", "9"][shape]]
+            log, md = list(a.log), list(a.md)
+            if f.proc:
+                log.append(f.proc.tag)
+                if f.proc.md is not None:
+                    md.append(f.proc.md)
+                if f.proc.add_arg is not None:
+                    args.append(repr(f.proc.add_arg))
+            # no return annotation: Any - usable where a number is wanted only at the top of a Select
+            if want != "top":
+                return None
+            return TExpr(src, f"rawf({', '.join(args)})", "Any", log, md, a.refusal)
+        try:
+            j = self.obj("Jet", scope, d - 1)
+        except RuntimeError:
+            return None
+        if j.ty != "Jet":
+            return None
+        pn = rng.choice(["getAttr", "rawAttr"])
+        return TExpr(f"{j.src}.{pn}(1)", f"{j.norm}.{pn}(1)", "float", j.log, j.md,
+                     j.refusal or "a property is not a function or method [oracle only]")
+
     def obj(self, cls_name: str, scope, d) -> TExpr:
         "an expression of class type cls_name"
         vs = [n for n, t in self.visible(scope) if t == cls_name]
@@ -587,6 +625,10 @@ class TypedGen:
             c = self.param_call(scope, d)
             if c is not None:
                 return c
+        if d > 0 and rng.random() < 0.06:
+            c = self.odd_call(scope, d, want)
+            if c is not None:
+                return c
         objs = [(n, t) for n, t in self.visible(scope) if t in lib.classes]
         r = rng.random()
         if not objs or d <= 0 and r < 0.2:
@@ -682,6 +724,8 @@ class TypedGen:
                 c = self.called(scope, max(d, 2), lambda sc: self.select(self.seq(rng.choice(["Jet", "Trk"]), sc, 1), sc, 2, want))
             if c is not None:
                 b = c
+            elif r < 0.04:
+                b = self.odd_call(scope, max(d, 1), "top") or self.scalar(scope, d, "float")
             elif r < 0.35:
                 b = self.scalar(scope, d, rng.choice(["float", "int"]))
             elif r < 0.6:
